@@ -225,6 +225,7 @@ type zzLock struct {
 	forUpdateTS uint64
 	async       bool
 	secondaries [][]byte
+	generation  uint64 // > 0: written by a pipelined flush
 }
 
 type zzWrite struct {
@@ -279,6 +280,8 @@ type zzCluster struct {
 	onePCAllowed           bool
 	noForeignResolver      bool     // the foreign-resolver event is not part of the script
 	regionErrorsOnly       bool     // the script may only inject retryable region errors (no lost messages)
+	flushes                []*kvrpcpb.FlushRequest
+	regions                []*metapb.Region
 	lockOutcomes           bool     // pessimistic lock outcomes are chosen by the script
 	everLocked             [][]byte // keys that ever carried a pessimistic lock of the transaction
 	primary                []byte // the transaction under test (for the foreign-resolver event)
@@ -691,6 +694,66 @@ func (c *zzClient) SendRequest(ctx context.Context, addr string, req *tikvrpc.Re
 			}
 		}
 		resp = &tikvrpc.Response{Resp: out}
+	case tikvrpc.CmdFlush:
+		r := req.Flush()
+		out := &kvrpcpb.FlushResponse{}
+		cl.flushes = append(cl.flushes, r)
+		for _, m := range r.Mutations {
+			rpc.keys = append(rpc.keys, m.Key)
+			ks := cl.key(m.Key)
+			if ks.lock != nil && ks.lock.startTS != r.StartTs {
+				out.Errors = append(out.Errors, zzKeyErrLocked(ks))
+			}
+		}
+		if len(out.Errors) == 0 {
+			for _, m := range r.Mutations {
+				if m.Op == kvrpcpb.Op_CheckNotExists {
+					continue
+				}
+				ks := cl.key(m.Key)
+				ks.lock = &zzLock{startTS: r.StartTs, primary: r.PrimaryKey, op: m.Op, value: m.Value, minCommitTS: r.MinCommitTs,
+					ttl: r.LockTtl, generation: r.Generation}
+			}
+		}
+		resp = &tikvrpc.Response{Resp: out}
+	case tikvrpc.CmdBufferBatchGet:
+		r := req.BufferBatchGet()
+		out := &kvrpcpb.BufferBatchGetResponse{}
+		for _, k := range r.Keys {
+			ks := cl.key(k)
+			if ks.lock != nil && ks.lock.startTS == r.Version && ks.lock.generation > 0 {
+				out.Pairs = append(out.Pairs, &kvrpcpb.KvPair{Key: k, Value: ks.lock.value})
+			}
+		}
+		resp = &tikvrpc.Response{Resp: out}
+	case tikvrpc.CmdResolveLock:
+		r := req.ResolveLock()
+		// region-wide resolve of one transaction: every lock of StartVersion whose key
+		// lies in the request's region
+		var region *metapb.Region
+		for _, rg := range cl.regions {
+			if rg.Id == req.Context.GetRegionId() {
+				region = rg
+			}
+		}
+		out := &kvrpcpb.ResolveLockResponse{}
+		if len(r.Keys) == 0 && len(r.TxnInfos) == 0 && region != nil {
+			for _, ks := range cl.keys {
+				if ks.lock != nil && ks.lock.startTS == r.StartVersion && zzRegionHas(region, ks.key) {
+					if r.CommitVersion != 0 {
+						ks.writes = append(ks.writes, zzWrite{startTS: r.StartVersion, commitTS: r.CommitVersion, op: ks.lock.op, value: ks.lock.value})
+					} else {
+						ks.writes = append(ks.writes, zzWrite{startTS: r.StartVersion, commitTS: 0})
+					}
+					ks.lock = nil
+				}
+			}
+		} else {
+			cl.unmodelled = true
+		}
+		resp = &tikvrpc.Response{Resp: out}
+	case tikvrpc.CmdBroadcastTxnStatus:
+		resp = &tikvrpc.Response{Resp: &kvrpcpb.BroadcastTxnStatusResponse{}}
 	case tikvrpc.CmdPessimisticLock:
 		r := req.PessimisticLock()
 		for _, m := range r.Mutations {
@@ -799,7 +862,9 @@ func zzNewStoreTS(splits [][]byte, faults int, symbolicTS bool) (*zzStore, *zzCl
 	config.UpdateGlobal(func(conf *config.Config) { conf.CommitterConcurrency = 1 })
 	cl := &zzCluster{faults: faults}
 	s := &zzStore{ctx: context.Background()}
-	s.cache = locate.NewRegionCache(zzLayout(splits))
+	pdc := zzLayout(splits)
+	cl.regions = pdc.regions
+	s.cache = locate.NewRegionCache(pdc)
 	s.cli = &zzClient{cl: cl}
 	s.orc = &zzOracle{last: 1000, step: 10}
 	if symbolicTS {
